@@ -113,7 +113,7 @@ func feed(h simnet.Handler, inputs []rawPkt, sources []uint16, watchdog time.Dur
 }
 
 func unitC10core(e common.Env, p *common.Part) {
-	p.Rule = "corpus captured from honest loud and silent sessions of this build (sync: membership / query / response; MPC: payloads of both classes and rounds, acknowledgements), mutated: every prefix length, extension by 1..3 bytes, each of the first 40 bytes replaced by {00,01,7f,80,ff}, bit flips, empty and 1-byte inputs, topics of length 0..8,31,33,64 and nil, unknown message types; fed to MpcParty.HandleMessage (loud and silent) in the states idle / synchronising / protocol running / finished from a participant, a member outside the session and a non-member, to msg.Box.HandleMessage and to disc.Member.HandleMessage with a live Synchronize; oracle: the child survives, every batch returns within 30 s, and after hostile input from non-participants (and from a participant on other topics) the honest session completes everywhere; distinct key = (entry point, state, source class, input hash); non-trivial when the input differs from every corpus member"
+	p.Rule = "corpus captured from honest loud and silent sessions of this build (sync: membership / query / response; MPC: payloads of both classes and rounds, acknowledgements), mutated: every prefix length, extension by 1..3 bytes, each of the first 40 bytes replaced by {00,01,7f,80,ff}, bit flips, empty and 1-byte inputs, topics of length 0..8,31,33,64 and nil, unknown message types; fed to MpcParty.HandleMessage (loud and silent) in the states idle / synchronising / protocol running / finished from a participant, a member outside the session and a non-member (and, in two further targets, every input from ALL other participants on the live topic, judged for survival only), to msg.Box.HandleMessage and to disc.Member.HandleMessage with a live Synchronize; oracle: the child survives, every batch returns within 30 s, and after hostile input from non-participants (and from a participant on other topics) the honest session completes everywhere; distinct key = (entry point, state, source class, input hash); non-trivial when the input differs from every corpus member"
 	perSeed := e.Pick(160, 0)
 	type target struct {
 		name string
@@ -192,6 +192,65 @@ func unitC10core(e common.Env, p *common.Part) {
 				}
 			}
 			return "", "", calls
+		}
+	}
+	// protocol running, hostile input from the OTHER PARTICIPANTS on the live topic: every input is sent by each of them (so that
+	// whatever needs the agreement of all peers gets it). Participants may legitimately ruin their own session (equivocation is
+	// detected, the session ends with an error), so only survival is judged: no crash, no hang, every call returns.
+	liveParticipants := func(n int, sign bool) func(rng *rand.Rand, inputs []rawPkt) (string, string, int) {
+		return func(rng *rand.Rand, inputs []rawPkt) (string, string, int) {
+			var ids []uint16
+			for k := 1; k <= n; k++ {
+				ids = append(ids, uint16(k))
+			}
+			sc := backend.Script{Rounds: []uint8{1, 2}, Bcast: true, P2P: true, AllAtOnce: true, Hold: true}
+			c := cluster.New(cluster.Config{Map: identityMap(1, 2, 3, 40), Barrier: true, Threshold: n - 1, Script: sc, Nodes: ids})
+			ctx, cancel := context.WithCancel(context.Background())
+			defer cancel()
+			var wg sync.WaitGroup
+			topic := dkgTopic
+			if sign {
+				topic = cluster.Hash([]byte("c10-live-sign"))
+			}
+			for _, u := range ids {
+				u := u
+				c.Schemes[u].SetStoredData([]byte("share-of-x"))
+				wg.Add(1)
+				go func() {
+					defer wg.Done()
+					if sign {
+						c.Schemes[u].Sign(ctx, []byte("digest-0123456789abcdef0123456789"), "c10-live-sign")
+					} else {
+						c.Schemes[u].KeyGen(ctx, n, n-1)
+					}
+				}()
+			}
+			for _, u := range ids {
+				for c.LastBackend(u) == nil {
+					time.Sleep(100 * time.Microsecond)
+				}
+				<-c.LastBackend(u).Started
+			}
+			// all inputs re-targeted at the live topic (the corpus' own topics belong to other sessions)
+			var live []rawPkt
+			for _, in := range inputs {
+				if in.Type == uint8(tss.MsgTypeMPC) {
+					live = append(live, rawPkt{in.Type, topic, in.Data, in.Src})
+				}
+			}
+			n1, ok := feed(c.Schemes[1], live, ids[1:], 30*time.Second)
+			if !ok {
+				return "hang/dispatcher-running", "a batch of hostile messages from the other participants was not processed within 30 s", n1
+			}
+			cancel()
+			done := make(chan struct{})
+			go func() { wg.Wait(); close(done) }()
+			select {
+			case <-done:
+			case <-time.After(20 * time.Second):
+				return "hang/session-after-hostile-input", "after hostile input from the other participants a call had not returned 20 s after its context was cancelled", n1
+			}
+			return "", "", n1
 		}
 	}
 	otherStates := func(silent bool, state string) func(rng *rand.Rand, inputs []rawPkt) (string, string, int) {
@@ -311,6 +370,8 @@ func unitC10core(e common.Env, p *common.Part) {
 	targets := []target{
 		{"dispatcher loud, protocol running", livePhase(false)},
 		{"dispatcher silent, protocol running", livePhase(true)},
+		{"dispatcher loud, key generation of 3 running, every input from both other participants on the live topic", liveParticipants(3, false)},
+		{"dispatcher loud, signing session of 2 running, every input from the other participant on the live topic", liveParticipants(2, true)},
 		{"dispatcher loud, idle", otherStates(false, "idle")},
 		{"dispatcher loud, synchronising", otherStates(false, "synchronising")},
 		{"dispatcher loud, finished", otherStates(false, "finished")},
